@@ -1,5 +1,6 @@
 (* C18 — sparse matrices: round trip for full matrices and slices (the writer repacks a
-   slice through the matrix iterator), reader safety facts, refutations. *)
+   slice through the matrix iterator), the reader's validation (a328708: dimensions, overflow, indices),
+   reader safety on every document, no panic; the slice writer refutation (F-JSON-SPSLICE) stays. *)
 From Coq Require Import ZArith List Bool Lia Sorted.
 From ADV Require Import C18.Model C18.Spec C18.ProofsBase C18.ProofsSparse.
 Import ListNotations.
@@ -25,9 +26,6 @@ Lemma zeq_trans a b c : zeq a b -> zeq b c -> zeq a c.
 Proof.
   intros [->|[Ha Hb]] [->|[Hb' Hc]]; try (left; reflexivity); try (right; split; congruence).
 Qed.
-
-Lemma wrap64_small z : 0 <= z < 2^63 -> wrap64 z = z.
-Proof. intros H. unfold wrap64. rewrite Z.mod_small; lia. Qed.
 
 Lemma rowcol_unique a b a' b' c : 0 <= b < c -> 0 <= b' < c -> a * c + b = a' * c + b' -> a = a' /\ b = b'.
 Proof. intros. assert (a = a') by nia. subst. split; [reflexivity|lia]. Qed.
@@ -135,10 +133,96 @@ Proof.
     replace ((0 + i) * sm_cols m + (0 + j)) with (i * sm_cols m + j) by lia. left; reflexivity.
 Qed.
 
-Lemma sm_roundtrip (m : smat E) d :
+(* ---------------------------------------------------------------- the reader's validation *)
+(* Rows*Cols/Cols == Rows on 64-bit ints is a complete overflow test for non-negative dimensions *)
+Lemma sm_dims_ok rows cols :
+  sm_dims_bad rows cols = false -> 0 <= rows /\ 0 <= cols /\ wrap64 (rows * cols) = rows * cols.
+Proof.
+  unfold sm_dims_bad. intros H. apply orb_false_elim in H as [H Hq]. apply orb_false_elim in H as [Hr Hc].
+  split; [lia|]. split; [lia|].
+  destruct (cols =? 0) eqn:E0.
+  - apply Z.eqb_eq in E0. subst. rewrite Z.mul_0_r. reflexivity.
+  - simpl in Hq. apply negb_false_iff in Hq. apply Z.eqb_eq in Hq. apply Z.eqb_neq in E0.
+    assert (0 < cols) as Hcp by lia.
+    pose proof (wrap64_range (rows * cols)) as Hw.
+    destruct (Z.eq_dec rows 0) as [->|Hr0]; [reflexivity|].
+    assert (0 < rows) as Hrp by lia.
+    set (p := wrap64 (rows * cols)) in *.
+    assert (0 <= p) as Hp.
+    { destruct (Z_lt_le_dec p 0) as [Hneg|]; [|assumption]. exfalso.
+      assert (Z.quot p cols <= 0) by (apply Z.quot_le_upper_bound; lia || (rewrite Z.mul_0_r; lia)). lia. }
+    pose proof (Z.quot_rem' p cols) as Hqr. pose proof (Z.rem_bound_pos p cols Hp Hcp) as Hrb.
+    rewrite Hq in Hqr. apply wrap64_small. split; [nia|]. nia.
+Qed.
+
+Lemma sm_dims_good rows cols : 0 <= rows -> 0 <= cols -> rows * cols < 2^63 -> sm_dims_bad rows cols = false.
+Proof.
+  intros Hr Hc Hb. unfold sm_dims_bad. replace (rows <? 0) with false by lia. replace (cols <? 0) with false by lia. simpl.
+  destruct (cols =? 0) eqn:E0; [reflexivity|]. apply Z.eqb_neq in E0. simpl.
+  rewrite wrap64_small by nia. rewrite Z.quot_mul by assumption. rewrite Z.eqb_refl. reflexivity.
+Qed.
+
+Lemma sm_overflow_test_exact rows cols : 0 <= rows -> 0 <= cols ->
+  (sm_dims_bad rows cols = false <-> wrap64 (rows * cols) = rows * cols).
+Proof.
+  intros Hr Hc. split.
+  - intros H. apply sm_dims_ok in H. tauto.
+  - intros H. apply sm_dims_good; try assumption. pose proof (wrap64_range (rows * cols)). lia.
+Qed.
+
+Lemma read_sm_ok d m :
+  read_sm F T nz parseJ d = Ok m <->
+  (read_sm_core F T nz parseJ d = Ok m /\ sm_dims_bad (smd_rows d) (smd_cols d) = false /\
+   idx_ok (wrap64 (smd_rows d * smd_cols d)) [] (smd_index d) = true).
+Proof.
+  unfold read_sm, read_sm_core.
+  destruct (parse_list F T parseJ (smd_value d)) as [vals| | |]; simpl; try (split; [discriminate|intros (C & _); discriminate]).
+  destruct (negb (zlen (smd_index d) =? zlen vals)); [split; [discriminate|intros (C & _); discriminate]|].
+  destruct (sm_dims_bad (smd_rows d) (smd_cols d)); [split; [discriminate|intros (_ & C & _); discriminate]|].
+  destruct (idx_ok _ [] (smd_index d)); simpl.
+  - split; [intros H; repeat split; assumption|intros (H & _); assumption].
+  - split; [discriminate|intros (_ & _ & C); discriminate].
+Qed.
+
+(* reader safety at full strength *)
+Lemma read_sm_safe d m :
+  read_sm F T nz parseJ d = Ok m -> wf_sm m /\ sm_rows m = smd_rows d /\ sm_cols m = smd_cols d.
+Proof.
+  intros H. apply read_sm_ok in H as (Hc & Hd & Hi).
+  apply sm_dims_ok in Hd as (Hr & Hcn & Hw). rewrite Hw in Hi. apply idx_ok_nil in Hi as [HF _].
+  unfold read_sm_core in Hc. apply bind_ok in Hc as (vals & _ & Hc).
+  destruct (negb (zlen (smd_index d) =? zlen vals)); [discriminate|].
+  apply bind_ok in Hc as (st & Hst & Hc). inversion Hc; subst m; clear Hc. simpl.
+  rewrite Hw in Hst. apply new_sparse_safe in Hst as (Hn & Hs & Hlt & Hnn).
+  split; [|split; reflexivity].
+  unfold wf_sm; simpl. repeat (split; [lia|]). split; [|assumption].
+  unfold wf_sv. rewrite Hn. split; [nia|]. split; [assumption|].
+  assert (Forall (fun kv => 0 <= fst kv) (sv_ents st)) as Hnn'.
+  { apply Hnn. eapply Forall_impl; [|exact HF]. simpl. intros; lia. }
+  apply Forall_forall. intros kv Hin.
+  eapply Forall_forall in Hlt; [|eassumption]. eapply Forall_forall in Hnn'; [|eassumption]. lia.
+Qed.
+
+Lemma read_sm_total d : read_sm F T nz parseJ d <> Panic /\ read_sm F T nz parseJ d <> Crash.
+Proof.
+  unfold read_sm.
+  destruct (parse_list F T parseJ (smd_value d)) as [vals| | |] eqn:Ep; simpl; try (split; discriminate);
+    try (unfold parse_list in Ep; destruct (mapM parseJ _); discriminate).
+  destruct (zlen (smd_index d) =? zlen vals) eqn:El; simpl; [|split; discriminate].
+  destruct (sm_dims_bad (smd_rows d) (smd_cols d)); [split; discriminate|].
+  destruct (idx_ok _ [] (smd_index d)) eqn:Ei; simpl; [|split; discriminate].
+  apply idx_ok_nil in Ei as [HF Hnd]. apply Z.eqb_eq in El.
+  destruct (nsg_ok F nz (wrap64 (smd_rows d * smd_cols d)) (smd_index d) vals []) as (ents & He & _).
+  { unfold zlen in El. lia. } { assumption. }
+  { intros k Hin. split; [|reflexivity]. eapply Forall_forall in HF; [|eassumption]. simpl in HF. lia. }
+  unfold new_sparse. replace (zlen (smd_index d) =? zlen vals) with true by (symmetry; apply Z.eqb_eq; assumption).
+  simpl. rewrite He. simpl. split; discriminate.
+Qed.
+
+Lemma sm_core_roundtrip (m : smat E) d :
   wf_sm m -> sm_rows m * sm_cols m < 2^63 ->
   write_sm F T fmtJ E eval enul m = Ok d ->
-  exists m', read_sm F T nz parseJ d = Ok m' /\ wf_sm m' /\ sm_obs_eq F zero nz E eval m m'.
+  exists m', read_sm_core F T nz parseJ d = Ok m' /\ wf_sm m' /\ sm_obs_eq F zero nz E eval m m'.
 Proof.
   intros Hwf Hbound Hw. unfold write_sm in Hw. fold (storage m) in Hw.
   apply bind_ok in Hw as (st & Hst & Hw). apply bind_ok in Hw as (ts & Hts & Hw). inversion Hw; subst d; clear Hw.
@@ -147,7 +231,7 @@ Proof.
   assert (0 <= sm_rows m * sm_cols m) as Hnn by nia.
   destruct (sparse_core F T zero nz fmtJ parseJ nz_zero fmt_parse E eval enul enul_zero st ts (sm_rows m * sm_cols m) Hwst ltac:(lia) Hts)
     as (vals & Hp & Hlen & v' & Hv' & Hn' & Hs' & Hr' & Hobs).
-  unfold read_sm; simpl. rewrite Hp; simpl.
+  unfold read_sm_core; simpl. rewrite Hp; simpl.
   replace (zlen (map fst (live st)) =? zlen vals) with true by (symmetry; apply Z.eqb_eq; assumption).
   simpl. rewrite wrap64_small by lia. rewrite Hv'. simpl.
   eexists; split; [reflexivity|]. split.
@@ -162,6 +246,22 @@ Proof.
     replace ((i * sm_cols m + j <? 0) || (i * sm_cols m + j >=? sm_rows m * sm_cols m)) with false by nia.
     specialize (Hobs (i * sm_cols m + j)). specialize (Hval i j Hi Hj).
     destruct (lookup (i * sm_cols m + j) (sv_ents v')); eexists; (split; [reflexivity|]); eapply zeq_trans; eassumption.
+Qed.
+
+Lemma sm_roundtrip (m : smat E) d :
+  wf_sm m -> sm_rows m * sm_cols m < 2^63 ->
+  write_sm F T fmtJ E eval enul m = Ok d ->
+  exists m', read_sm F T nz parseJ d = Ok m' /\ wf_sm m' /\ sm_obs_eq F zero nz E eval m m'.
+Proof.
+  intros Hwf Hbound Hw. destruct (sm_core_roundtrip m d Hwf Hbound Hw) as (m' & Hr & Hwf' & Hobs).
+  exists m'. split; [|split; assumption]. apply read_sm_ok. split; [assumption|].
+  unfold write_sm in Hw. fold (storage m) in Hw.
+  apply bind_ok in Hw as (st & Hst & Hw). apply bind_ok in Hw as (ts & _ & Hw). inversion Hw; subst d; simpl.
+  destruct (storage_spec m st Hwf Hst) as (Hwst & Hnst & _).
+  pose proof Hwf as (_ & _ & H3 & H4 & _).
+  split; [apply sm_dims_good; assumption|].
+  rewrite wrap64_small by nia.
+  apply live_idx_ok; [assumption|lia].
 Qed.
 
 (* the only structural failure of the writer on a well-formed slice: a stored non-null entry
@@ -202,14 +302,13 @@ Proof.
   repeat split; try lia; repeat constructor; simpl; lia.
 Qed.
 
-Lemma sparse_matrix_reader_refuted :
-  Zrsm (mkSmDoc [1] [1] 1 1) = Panic /\
-  (exists m, Zrsm (mkSmDoc [-1] [1] 1 1) = Ok m /\ ~ wf_sm m) /\
-  (exists m, Zrsm (mkSmDoc [] [] (2^32) (2^32)) = Ok m /\ sv_n (sm_vals m) = 0 /\ ~ wf_sm m).
-Proof.
-  split; [reflexivity|]. split.
-  - eexists; split; [reflexivity|]. intros (_ & _ & _ & _ & _ & _ & (_ & _ & H) & _).
-    simpl in H. inversion H; subst. simpl in *. lia.
-  - eexists; split; [reflexivity|]. split; [reflexivity|].
-    intros (_ & _ & _ & _ & _ & _ & _ & H). vm_compute in H. discriminate.
-Qed.
+(* witnesses of the retired F-JSON-SPARSE-PANIC / F-JSON-NEGIDX for matrices: errors now *)
+Lemma sparse_matrix_reader_regression :
+  Zrsm (mkSmDoc [1] [1] 1 1) = Err /\                    (* index outside: was a panic *)
+  Zrsm (mkSmDoc [-1] [1] 1 1) = Err /\                   (* negative index: was accepted *)
+  Zrsm (mkSmDoc [] [] (2^32) (2^32)) = Err /\            (* Rows*Cols wraps to 0: was accepted *)
+  Zrsm (mkSmDoc [] [] 3037000500 3037000500) = Err /\    (* wraps to a negative number *)
+  Zrsm (mkSmDoc [] [] (-1) (-1)) = Err /\
+  Zrsm (mkSmDoc [0; 0] [1; 1] 1 1) = Err /\
+  Zrsm (mkSmDoc [3; 0] [5; 0] 2 2) = Ok (mkSm (mkSv [(3, 5)] 4) 2 2 0 2 0 2).
+Proof. repeat split; reflexivity. Qed.
